@@ -29,7 +29,18 @@ func (fc *FCtx) evalCall(e *ast.CallExpr, st *State) []Val {
 	if isDroppedCall(name) {
 		fc.drop(name)
 		fc.evalDroppedArgs(e, st)
-		return nil
+		// results of a dropped call (e.g. a derived logger) are arbitrary values that only feed other dropped calls
+		var res []Val
+		if fo := fc.calleeObj(e); fo != nil {
+			if sg, ok := fo.Type().(*types.Signature); ok {
+				for i := 0; i < sg.Results().Len(); i++ {
+					rt := sg.Results().At(i).Type()
+					rs := fc.U.SortOf(rt)
+					res = append(res, Val{T: fc.U.Fresh("dropped", rs), S: rs, GoT: rt})
+				}
+			}
+		}
+		return res
 	}
 	// receiver (method call) and arguments
 	var recv *Val
@@ -997,6 +1008,10 @@ var extAliases = map[string]struct {
 	"Coins.SafeSub#1":                     {"(github.com/cosmos/cosmos-sdk/types.Coins).SafeSub", "Bool"},
 	"Coins.Equal":                         {"(github.com/cosmos/cosmos-sdk/types.Coins).Equal", "Bool"},
 	"NewCoins":                            {"github.com/cosmos/cosmos-sdk/types.NewCoins", "sdk.Coins"},
+	"DecCoins.TruncateDecimal":            {"(github.com/cosmos/cosmos-sdk/types.DecCoins).TruncateDecimal", "sdk.Coins"},
+	"DecCoins.TruncateDecimal#1":          {"(github.com/cosmos/cosmos-sdk/types.DecCoins).TruncateDecimal", "sdk.DecCoins"},
+	"DecCoins.MulDecTruncate":             {"(github.com/cosmos/cosmos-sdk/types.DecCoins).MulDecTruncate", "sdk.DecCoins"},
+	"DecCoins.AmountOf":                   {"(github.com/cosmos/cosmos-sdk/types.DecCoins).AmountOf", "Int"},
 	"Consensus.Marshal":                   {"(*github.com/cometbft/cometbft/proto/tendermint/version.Consensus).Marshal", "Bz"},
 	"PBBlockID.Marshal":                   {"(*github.com/cometbft/cometbft/proto/tendermint/types.BlockID).Marshal", "Bz"},
 	"BlockID.ToProto":                     {"(*github.com/cometbft/cometbft/types.BlockID).ToProto", "cmtproto.BlockID"},
